@@ -40,8 +40,8 @@ var TraceSet = append(append([]string{}, MutatingSet...),
 // Call is one decoded strace line (unfinished/resumed pairs merged), in
 // completion order.
 type Call struct {
-	Seq   int    // index in Log.Calls
-	Line  int    // line number of the completing line
+	Seq   int // index in Log.Calls
+	Line  int // line number of the completing line
 	TID   int
 	Name  string
 	Args  []string // raw top-level arguments
